@@ -12,6 +12,9 @@ Driver.  Runs the REAL ``mesonbuild.mformat.Formatter(...).format(text, path)`` 
   (4) the real ``meson format`` command (fork server): -q, -d, -i, -o, plain stdout, stdin, -r, -c / meson.format
       auto-discovery, -e, CRLF/CR files; multi-file runs (-r and several sources) under FILE-SPECIFIC .editorconfig
       sections, judged against a fresh Formatter per file (the result for a file must not depend on earlier files);
+      the files of one run are in different directories (multi_tree) or SEVERAL FILES OF THE SAME DIRECTORY - meson.build +
+      meson.options / meson_options.txt, named as sources (also with -r, also a directory as source) - with sections
+      that select files by NAME (samedir_tree); --check-only right after --inplace over the same sources must exit 0;
 while vf.monitors.c16_contracts (oracle: the independent reader vf.ref.refmeson) judges every run:
   output parses (real parser and reference parser); same tree modulo exactly the documented simplifications; same
   comments in the same order; format(format(x)) == format(x); two documented option effects (insert_final_newline; a
@@ -286,6 +289,22 @@ def t_single_comma(text: str, cfg: T.Mapping[str, T.Any]) -> T.Tuple[str, T.Opti
     return text, (('no_single_comma_function', False),)
 
 
+def t_empty_indent(text: str, cfg: T.Mapping[str, T.Any]) -> T.Tuple[str, T.Optional[T.Tuple[T.Tuple[str, T.Any], ...]]]:
+    """same input, same configuration except that the EMPTY indentation unit becomes one space: which comments the output
+    holds cannot depend on the indentation unit, so this flip may explain a lost comment (TrimWhitespaces.dedent())"""
+    if cfg.get('indent_by') != '':
+        return text, None
+    return text, (('indent_by', ' '),)
+
+
+def empty_indent_mechanism(text: str, cfg: T.Mapping[str, T.Any], contracts: T.Set[str]) -> T.List[str]:
+    return ['comment-lost:empty-indent_by'] if 'same-comments' in contracts else []
+
+
+# configuration flips that may explain more than layout instability
+SEMANTIC_FLIPS: T.Tuple[T.Any, ...] = (t_empty_indent,)
+
+
 def files_mechanism(text: str, cfg: T.Mapping[str, T.Any], contracts: T.Set[str]) -> T.List[str]:
     """Sub-classification once a verdict has been attributed to the files() special-casing."""
     names = []
@@ -343,6 +362,7 @@ DIFFERENTIAL: T.Tuple[T.Tuple[T.Callable[[str, T.Mapping[str, T.Any]], T.Any], T
     (t_files, files_mechanism),
     (t_cont_after_open, 'continuation-after-open-bracket-relayouted-on-second-pass'),
     (t_trailing_cont, 'continuation-at-end-of-statement-gains-a-line-per-pass'),
+    (t_empty_indent, empty_indent_mechanism),
 )
 
 
@@ -424,7 +444,7 @@ def evaluate(text: str, ci: int, counts: T.Dict[str, int]) -> T.List[T.Tuple[str
         if not used:
             pending.remove(item)
             continue
-        if ov2 != cur_ov and any(v.contract != 'idempotent' for v in generic):
+        if ov2 != cur_ov and item[0] not in SEMANTIC_FLIPS and any(v.contract != 'idempotent' for v in generic):
             continue      # a configuration flip may only explain layout instability (same tree, same comments)
         vs2 = judge_variant(t2, ov2)
         gone = {v.contract for v in generic} - {v.contract for v in vs2 if is_generic(v.mechanism)}
@@ -681,6 +701,24 @@ PROBES: T.List[T.Tuple[str, T.Dict[str, T.Any], T.Tuple[str, ...]]] = [
     ("# a\x0cb\nx = 1\n", {}, ('comment-split-at-non-lf-line-boundary',)),
     ("f('--l' #\x1c\n, 'v')\n", {}, ('comment-split-at-non-lf-line-boundary',)),
     ("f(a # c\u2028\n, b)\n", {}, ('comment-split-at-non-lf-line-boundary',)),
+    # fixed by f0fb219: with indent_by = '' dedent() did value[:-0] and erased the whitespace node before a closing bracket
+    # together with the comment in it; the other extreme but legal indentation units as controls
+    ("x = (a # c\n and b # d\n)\n", {'indent_by': ''}, ('comment-lost:empty-indent_by',)),
+    ("x = [a, # c\n b # d\n]\nf(1, # e\n 2 # f\n)\nd = {'k': 1 # g\n}\n", {'indent_by': ''}, ('comment-lost:empty-indent_by',)),
+    ("if a\n  x = (a # c\n   and b # d\n  )\n  foreach i : [1, # e\n    2 # f\n    ]\n  y = i\n  endforeach\nendif\n", {'indent_by': '', 'max_line_length': 20},
+     ('comment-lost:empty-indent_by',)),
+    ("x = (a # c\n and b # d\n)\n", {'indent_by': ' '}, ()),
+    ("x = (a # c\n and b # d\n)\n", {'indent_by': '\t'}, ()),
+    ("x = (a # c\n and b # d\n)\n", {'indent_by': '        '}, ()),
+    # negative controls: a comment in EVERY gap between two tokens where a line break is blank space (inside brackets, or
+    # after a continuation backslash) - also the gap inside the two-word operator `not in`, whose trivia lives in the
+    # operator symbol itself
+    ("x = (a # 1\n not # 2\n in # 3\n b # 4\n)\n", {}, ()),
+    ("x = [a # 1\n not # 2\n in # 3\n b, # 4\n c # 5\n ? # 6\n d # 7\n : # 8\n e # 9\n , # 10\n - # 11\n g # 12\n]\n", {}, ()),
+    ("f(a # 1\n . # 2\n m # 3\n ( # 4\n k # 5\n : # 6\n not # 7\n v # 8\n ) # 9\n [ # 10\n 0 # 11\n ] # 12\n)\n", {}, ()),
+    ("d = { # 1\n 'k' # 2\n : # 3\n a # 4\n not # 5\n in # 6\n b # 7\n and # 8\n not # 9\n c # 10\n or # 11\n e # 12\n == # 13\n g # 14\n}\n", {}, ()),
+    ("y = a not \\\n in b\nz = a not \\ # c\n in b\nif a not  \\ # d\n   in b\nendif\n", {}, ()),
+    ("x = (a not # why\n in b)\n", {'max_line_length': 20, 'indent_by': ''}, ()),
     # negative controls: the documented simplifications that ARE meaning preserving, and plain programs
     ("x = '''abc'''\n", {}, ()),
     ("x = '''a\nb'''\n", {}, ()),
@@ -1168,7 +1206,106 @@ def multi_tree(rng: random.Random, root: str, directed: bool = False) -> T.Optio
     return {'rels': rels, 'content': content, 'cfgfile': cfgfile, 'via_key': via_key, 'editorconfig': ec}
 
 
-def cli_multifile(acc: Acc, idx: int, seed: int, directed: bool = False) -> None:
+# ---- several files of ONE directory in one run: .editorconfig sections select files by NAME, not by directory ----------
+
+SIBLINGS = ('meson.options', 'meson_options.txt')
+# section headers that select one build-file name (the glob is searched in the path, so it holds in every directory)
+NAME_PATTERNS = {'meson.build': ('meson.build', '*.build', '{meson.build,CMakeLists.txt}'),
+                 'meson.options': ('meson.options', '*.options', '{meson.options,Makefile.am}'),
+                 'meson_options.txt': ('meson_options.txt', '*.txt', 'meson_*.txt', '{meson_options.txt,CMakeLists.txt}')}
+OPTIONS_TAIL = ("option('feature_x', type: 'feature', value: 'auto', description: 'a description that makes this line rather long')\n"
+                "option('names', type: 'array', value: ['one', 'two', 'three'], choices: ['one', 'two', 'three', 'four', 'five'])\n")
+
+
+def samedir_tree(rng: random.Random, root: str, directed: bool = False) -> T.Optional[dict]:
+    """One or two directories, each holding meson.build AND one or two option files (all Meson DSL, all legal `meson format`
+    sources).  The .editorconfig has one section per file NAME with different values.  `visit` is the order in which ONE
+    invocation handles the files (explicit sources, optionally -r: then lib/meson.build is reached through subdir() after
+    the named files).  Every file is a fixed point under its own configuration, except (in half of the cases) the victim,
+    which is a fixed point under the configuration of a file of the same directory handled before it (donor)."""
+    g = G.Gen(rng, noise=0.4, size=2, ml_backslash=False)
+
+    def prog(rel: str) -> str:
+        tail = SENSITIVE_TAIL + (OPTIONS_TAIL if not rel.endswith('meson.build') else '')
+        for _ in range(20):
+            t = universal(''.join(g.program()).encode('utf-8'))
+            if parses(t) and 'subdir' not in t and 'subproject' not in t:
+                return (t if t.endswith('\n') else t + '\n') + tail
+        return tail
+
+    if directed:
+        dirs = ['']
+        by_dir = {'': ['meson.build', 'meson.options']}
+        recursive = False
+    else:
+        dirs = [''] + ([rng.choice(('lib', 'src', 'a/d'))] if rng.random() < 0.5 else [])
+        by_dir = {d: ['meson.build'] + rng.sample(SIBLINGS, rng.choice((1, 1, 2))) for d in dirs}
+        recursive = rng.random() < 0.4
+    rel_of = lambda d, n: (d + '/' + n) if d else n    # noqa: E731
+    rels = [rel_of(d, n) for d in dirs for n in by_dir[d]]
+    # the order of one invocation
+    if directed:
+        visit = ['meson.options', 'meson.build']
+        srcs = list(visit)
+    elif recursive:
+        # -r: the named files first, lib/meson.build afterwards through subdir() of the root file (named once only)
+        named = [r for r in rels if not (os.path.dirname(r) and r.endswith('meson.build'))]
+        rng.shuffle(named)
+        visit = named + [r for r in rels if r not in named]
+        srcs = ['-r'] + named
+    else:
+        visit = list(rels)
+        rng.shuffle(visit)
+        # a directory named as a source stands for its meson.build
+        srcs = [(os.path.dirname(r) if (os.path.dirname(r) and r.endswith('/meson.build') and rng.random() < 0.3) else r) for r in visit]
+    pairs = [(a, b) for i, a in enumerate(visit) for b in visit[i + 1:] if os.path.dirname(a) == os.path.dirname(b)]
+    donor, victim = pairs[0] if directed else rng.choice(pairs)
+    dn, vn = os.path.basename(donor), os.path.basename(victim)
+    keys_of: T.Dict[str, T.Tuple[str, ...]] = {}
+    for n in sorted({os.path.basename(r) for r in rels}):
+        keys_of[n] = rng.choice(EC_OTHER + EC_DONOR)
+    keys_of[dn] = ('indent_size = 2',) if directed else rng.choice(EC_DONOR)
+    keys_of[vn] = ('indent_size = 4',) if directed else rng.choice(tuple(k for k in EC_OTHER + EC_DONOR if k != keys_of[dn]))
+    ec = 'root = true\n'
+    if not directed and rng.random() < 0.3:
+        ec += '\n[*]\ncharset = utf-8\n' + rng.choice(('', 'indent_size = 6\n', 'max_line_length = 60\n', 'end_of_line = crlf\n'))
+    names = list(keys_of)
+    rng.shuffle(names)
+    for n in names:
+        if keys_of[n] or rng.random() < 0.5:
+            pat = n if directed else rng.choice(NAME_PATTERNS[n])
+            ec += f'\n[{pat}]\n' + ''.join(k + '\n' for k in keys_of[n])
+    cfgfile: T.Optional[str] = None
+    files: T.Dict[str, str] = {'.editorconfig': ec}
+    via_key = (not directed) and rng.random() < 0.3
+    if via_key or ((not directed) and rng.random() < 0.2):
+        lines = [f'{k} = true' for k in rng.sample(['space_array', 'wide_colon', 'kwargs_force_multiline'], rng.randint(0, 2))]
+        if via_key:
+            lines.append('use_editor_config = true')
+        files['meson.format'] = '\n'.join(lines) + '\n'
+        cfgfile = os.path.join(root, 'meson.format')
+    runner.write_tree(root, files)
+    texts: T.Dict[str, str] = {}
+    for rel in rels:
+        body = prog(rel)
+        if rel == 'meson.build':
+            body += ''.join(f"subdir('{d}')\n" for d in dirs if d)
+        texts[rel] = body
+    content: T.Dict[str, str] = {}
+    for rel in rels:
+        fp = fixed_point(cfgfile, texts[rel], os.path.join(root, rel))
+        if fp is None:
+            return None
+        content[rel] = fp
+    if directed or rng.random() < 0.5:
+        fp = fixed_point(cfgfile, texts[victim], os.path.join(root, donor))
+        if fp is not None:
+            content[victim] = fp
+    return {'rels': rels, 'content': content, 'cfgfile': cfgfile, 'via_key': via_key, 'editorconfig': ec, 'order': visit, 'srcs': srcs,
+            'recursive': recursive, 'victim': victim, 'donor': donor}
+
+
+def cli_multifile(acc: Acc, idx: int, seed: int, directed: bool = False, samedir: bool = False) -> None:
     """Several files handled by ONE formatter: (1) in-process, one Formatter object formatting the files in sequence must
     give what a fresh Formatter gives for each file; (2) `meson format -e -q` over all files exits non-zero iff a
     single-file run would change one of them; (3) after `meson format -e -i` over all files every file holds exactly what
@@ -1176,17 +1313,21 @@ def cli_multifile(acc: Acc, idx: int, seed: int, directed: bool = False) -> None
     assert ENV is not None
     from mesonbuild import mformat
     rng = random.Random(f'{PID}:{seed}:climulti:{idx}')
-    root = os.path.join(ENV.root, f'multi{seed}-{idx}' + ('d' if directed else ''))
+    root = os.path.join(ENV.root, f'multi{seed}-{idx}' + ('d' if directed else '') + ('s' if samedir else ''))
     os.makedirs(root, exist_ok=True)
     import shutil
     try:
-        tree = multi_tree(rng, root, directed)
+        tree = samedir_tree(rng, root, directed) if samedir else multi_tree(rng, root, directed)
         if tree is None:
             acc.add('skipped:multi-file-case-without-fixed-point')
             return
         rels, content, cfgfile = tree['rels'], tree['content'], tree['cfgfile']
-        recursive = directed or rng.random() < 0.5
-        order = list(rels) if recursive else [rels[0]] + rng.sample(rels[1:-1], len(rels) - 2) + [rels[-1]]
+        if samedir:
+            recursive, order, victim = tree['recursive'], tree['order'], tree['victim']
+        else:
+            recursive = directed or rng.random() < 0.5
+            order = list(rels) if recursive else [rels[0]] + rng.sample(rels[1:-1], len(rels) - 2) + [rels[-1]]
+            victim = rels[-1]
         # expectation per file: a fresh Formatter (= a single-file run)
         want: T.Dict[str, bytes] = {}
         data: T.Dict[str, bytes] = {}
@@ -1201,9 +1342,15 @@ def cli_multifile(acc: Acc, idx: int, seed: int, directed: bool = False) -> None
         runner.write_tree(root, data)
         would_change = {rel: want[rel] != data[rel] for rel in rels}
         acc.add('cases:cli')
-        acc.add('cli:mode-multi-' + ('recursive' if recursive else 'sources'))
-        acc.add('cli:multi-victim-would-change' if would_change[rels[-1]] else 'cli:multi-victim-clean')
-        acc.keys.append(common.digest(['climulti', recursive, tree['editorconfig'], sorted(would_change.items())]))
+        acc.add('cli:mode-multi-' + ('samedir-' if samedir else '') + ('recursive' if recursive else 'sources'))
+        acc.add(('cli:samedir-victim-would-change' if would_change[victim] else 'cli:samedir-victim-clean') if samedir else
+                ('cli:multi-victim-would-change' if would_change[victim] else 'cli:multi-victim-clean'))
+        if samedir:
+            acc.add('cli:samedir-files-in-one-invocation', len(order))
+            acc.add('cli:samedir-victim-' + os.path.basename(victim))
+            if any(a != b for a, b in zip(tree['srcs'], (['-r'] if recursive else []) + order)):
+                acc.add('cli:samedir-directory-named-as-source')
+        acc.keys.append(common.digest(['climulti', samedir, recursive, tree['editorconfig'], sorted(would_change.items())]))
         wit = {'kind': 'cli-multi', 'origin': f'climulti:{idx}', 'editorconfig': tree['editorconfig'], 'order': order,
                'recursive': recursive, 'meson.format': open(cfgfile).read() if cfgfile else None,
                'files': {k: v[:3000] for k, v in content.items()}}
@@ -1229,7 +1376,8 @@ def cli_multifile(acc: Acc, idx: int, seed: int, directed: bool = False) -> None
             fail('formatter-exception:' + type(e).__name__, {'exception': str(e)[:300]})
         # (2)+(3) the command
         argv = ['format'] + ([] if tree['via_key'] else ['-e'])
-        srcs = ['-r', 'meson.build'] if recursive else order
+        srcs = tree['srcs'] if samedir else (['-r', 'meson.build'] if recursive else order)
+        wit['argv_sources'] = srcs
         acc.add('cli:invocations', 2)
         r = runner.meson(argv + ['-q'] + srcs, cwd=root, timeout=60)
         acc.add('contract:cli-multi-file-check-status')
@@ -1249,6 +1397,23 @@ def cli_multifile(acc: Acc, idx: int, seed: int, directed: bool = False) -> None
                     fail('cli-multi-file-inplace-differs-from-single-file-result',
                          {'file': rel, 'got': got[:600].decode('utf-8', 'replace'), 'single_file_run': want[rel][:600].decode('utf-8', 'replace')})
                     break
+            else:
+                # formatting is idempotent at the command level: right after --inplace, --check-only over the same sources
+                # reports nothing - provided each file (now = the single-file result) is a fixed point of a single-file run
+                stable = True
+                for rel in rels:
+                    again, _e = fresh_format(cfgfile, universal(want[rel]), os.path.join(root, rel))
+                    stable = stable and again is not None and again == universal(want[rel])
+                if not stable:
+                    acc.add('skipped:multi-file-result-not-a-fixed-point-of-a-single-file-run')
+                else:
+                    acc.add('cli:invocations')
+                    r = runner.meson(argv + ['-q'] + srcs, cwd=root, timeout=60)
+                    acc.add('contract:cli-multi-file-check-after-inplace')
+                    if r.rc not in (0, 1) or r.traceback:
+                        fail('cli-multi-file-check-crashed', r.brief())
+                    elif r.rc != 0:
+                        fail('cli-multi-file-check-reports-change-right-after-inplace', {'rc': r.rc, 'out': (r.out or '')[:300]})
     finally:
         shutil.rmtree(root, ignore_errors=True)
 
@@ -1267,11 +1432,14 @@ def worker_cli(task: T.Tuple[int, int, int]) -> dict:
     if first == 0:
         cli_probes(acc)
         cli_multifile(acc, 0, 0, directed=True)
+        cli_multifile(acc, 0, 0, directed=True, samedir=True)
     for i in range(first, first + count):
         if i % 8 == 7:
             cli_recursive(acc, i, seed)
         elif i % 8 == 3:
             cli_multifile(acc, i, seed)
+        elif i % 8 == 5:
+            cli_multifile(acc, i, seed, samedir=True)
         else:
             cli_case(acc, i, seed, ENV.root)
     return acc.data()
@@ -1547,7 +1715,8 @@ def main() -> int:
                  'contract:same-comments-nonempty', 'contract:idempotent', 'contract:cli-check-status', 'contract:cli-inplace-bytes',
                  'contract:cli-output-bytes', 'contract:cli-stdout', 'contract:cli-diff-output', 'contract:cli-recursive-inplace',
                  'contract:cli-multi-file-inplace', 'contract:cli-multi-file-check-status', 'contract:formatter-stateless',
-                 'cli:multi-victim-would-change',
+                 'cli:multi-victim-would-change', 'contract:cli-multi-file-check-after-inplace',
+                 'cli:mode-multi-samedir-sources', 'cli:mode-multi-samedir-recursive', 'cli:samedir-victim-would-change', 'cli:samedir-victim-clean',
                  'probe:run', 'probe:cli-run', 'probe:split-run', 'contract:final-newline', 'cases:corpus', 'cases:gen', 'accepted:literal-respelled',
                  'pass:TrimWhitespaces.visit_StringNode', 'pass:TrimWhitespaces.visit_FunctionNode',
                  'pass:ArgumentFormatter.visit_ArgumentNode', 'pass:ComputeLineLengths.visit_ArgumentNode', 'rounds:2', 'rounds:5',
@@ -1575,7 +1744,7 @@ def main() -> int:
                      'comments are compared after stripping trailing blanks',
                      'CLI: the expected text is the in-process Formatter output under the same configuration files; expected bytes apply '
                      'the configured end_of_line',
-                     'invalid configuration values (tab_width 0, non-blank indent_by) are not explored'],
+                     'invalid configuration values (tab_width 0, non-blank indent_by) are not explored; the empty indent_by is explored'],
         extra=cells)
 
 
